@@ -1158,7 +1158,6 @@ func extractPrefixCommentsAndRewrite(sql string, version *util.VersionCompareSta
 func checkExecuteFromSlave(reqCtx *util.RequestContext, c *SessionExecutor, sql string) bool {
 	stmtType := reqCtx.GetStmtType()
 	tokens := reqCtx.GetTokens()
-	tokensLen := len(tokens)
 
 	if stmtType != parser.StmtSelect && stmtType != parser.StmtShow {
 		return false
@@ -1205,13 +1204,12 @@ func checkExecuteFromSlave(reqCtx *util.RequestContext, c *SessionExecutor, sql 
 		}
 	}
 
-	// handle master hint
-	if len(tokens) > 1 && util.LowerEqual(tokens[1], masterHint) {
-		return false
-	}
-	// handle master hint
-	if len(tokens) > 1 && util.LowerEqual(tokens[tokensLen-1], masterHint) {
-		return false
+	// handle master hint: `/*master*/` in front of, inside or behind the statement,
+	// whatever other comments surround it
+	for _, token := range tokens {
+		if util.LowerEqual(token, masterHint) {
+			return false
+		}
 	}
 
 	return c.GetNamespace().IsRWSplit(c.user)
